@@ -602,6 +602,12 @@ func (c *Ctx) Bin(op Op, a, b *Term) *Term {
 			return r
 		}
 	}
+	if op == OOr && s.W >= 16 && (a.Op == OShl || b.Op == OShl) {
+		probe := &Term{Op: op, Sort: s, Args: []*Term{a, b}}
+		if x := c.recompose(probe); x != nil {
+			return x
+		}
+	}
 	lo, hi := binInterval(op, s, a, b)
 	if lo == nil && (op == OAdd || op == OSub) && s.W == 64 {
 		if t := c.tryModLinear(op, s, a, b); t != nil {
